@@ -72,7 +72,7 @@ var c03Faults = &vlib.Check{
 		place := vlib.Pick(r, []string{"direct", "direct", "include", "macro"})
 		var ft []*mdl.Dir
 		var f *mdl.Fault
-		if place == "macro" && vlib.Chance(r, 1, 3) {
+		if place == "macro" && vlib.Chance(r, 1, 2) {
 			mt, n, _ := mdl.Macroize(r, tree, 1+r.Intn(2))
 			if n == 0 {
 				return nil
@@ -132,7 +132,7 @@ var c03Faults = &vlib.Check{
 			for _, id := range f.AlsoIDs {
 				add(id, false)
 			}
-			if f.Class == "annotation:PASTE" || f.Class == "missing-parameter:PASTE" || f.Class == "undefined:macro" {
+			if f.Class == "annotation:PASTE" {
 				// paste-phase faults inside a macro body are reported on the PASTE that expands that body (pinned design)
 				for _, id := range mdl.PasteSites(ft, f.DirID) {
 					add(id, false)
